@@ -21,6 +21,9 @@ fn verdict_ok(v: &adblock::blocker::BlockerResult, expect: &Value) -> bool {
     if let Some(rw) = expect.get("rewritten") {
         ok &= v.rewritten_url.as_deref() == rw.as_str();
     }
+    if let Some(r) = expect.get("redirect_some").and_then(|x| x.as_bool()) {
+        ok &= v.redirect.is_some() == r;
+    }
     ok
 }
 
@@ -36,6 +39,9 @@ pub fn replay(w: &Value) -> Option<bool> {
             let mut e = Engine::from_rules_parametrised(&rules, Default::default(), true, optimize);
             let tags = strs(&w["tags"]);
             e.use_tags(&tags.iter().map(|s| s.as_str()).collect::<Vec<_>>());
+            if w.get("std_resources").and_then(|x| x.as_bool()).unwrap_or(false) {
+                e.use_resources(crate::c01::std_resources());
+            }
             if kind == "add-filter-verdict" {
                 for l in strs(&w["add"]) {
                     if let Some(f) = parse_net(&l, true) {
